@@ -432,12 +432,18 @@ def run_path_enum(desc):
                 # (with MATCHBASE: a pattern that contains a separator, however it is spelled, is not a bare base name)
                 fl = flagval('gl', fnames)
                 a = accepted('gl', text, deep, fl)
-                b = accepted('gl', bs, deep, fl)
-                out.evaluations += len(deep)
-                if a != b:
-                    d = sorted(a ^ b)[0]
-                    out.violation({'mode': 'gl', 'pattern': text, 'escaped_backslash_form': bs, 'flags': fnames, 'name': d,
-                                   'relation': 'escaped backslash in the pattern is a separator'}, bucket=('R5p', len(fnames)))
+                # every separator as an escaped backslash; as an escaped backslash followed by a slash and the reverse (a run of two)
+                bad = False
+                for form in (bs, text.replace('/', '\\\\/'), text.replace('/', '/\\\\')):
+                    b = accepted('gl', form, deep, fl)
+                    out.evaluations += len(deep)
+                    if a != b:
+                        d = sorted(a ^ b)[0]
+                        out.violation({'mode': 'gl', 'pattern': text, 'escaped_backslash_form': form, 'flags': fnames, 'name': d,
+                                       'relation': 'escaped backslash in the pattern is a separator'}, bucket=('R5p', len(fnames)))
+                        bad = True
+                        break
+                if bad:
                     break
         if idx % 499 == s:
             out.sample({'pattern': text, 'names': len(names), 'stream': 'path-enum'})
